@@ -992,6 +992,11 @@ class Gen:
     def s_declare(self, em, ctx, depth):
         """Bare annotation: declared-only variable (C16)."""
         fn = ctx["fn"]
+        if "o" in ctx["params"] and self.rnd.random() < 0.15:
+            # a value-less annotation of an attribute or subscript declares no variable (no-op)
+            self.feat("attr_or_subscript_declaration")
+            em.both(self.rnd.choice(["o.dzz: int", "o['dzz']: int"]))
+            return
         cands = [n for n in ["dv1", "dv2", "dv3"] if n not in self.declared.get(fn, [])]
         if not cands:
             return self.s_assign(em, ctx, depth)
